@@ -234,6 +234,10 @@ pub trait Prop: Sync {
     fn workers(&self) -> usize {
         16
     }
+    /// Bound on proptest shrink iterations (lower it where one case costs process spawns).
+    fn shrink_iters(&self) -> u32 {
+        4000
+    }
     /// Hook for properties that run additional whole-process experiments in the supervisor
     /// (e.g. multi-process determinism). Returns extra results to merge.
     fn supervisor_extra(&self, _ctx: &mut Ctx) -> Vec<CaseResult> {
@@ -554,7 +558,7 @@ fn worker_body(prop: &dyn Prop, tier: Tier, seed: u64, worker: usize, workers: u
             cases: share as u32,
             rng_seed: RngSeed::Fixed(wseed),
             failure_persistence: None,
-            max_shrink_iters: 4000,
+            max_shrink_iters: prop.shrink_iters(),
             max_shrink_time: 0,
             verbose: 0,
             ..Config::default()
